@@ -35,7 +35,7 @@ def udig(u):
 def snap(x):
     """snapshot of one operand (and of its base array, if it is a view)"""
     if isinstance(x, Unit):
-        return ("unit", udig(x))
+        return ("unit", udig(x), id(x.registry))
     if isinstance(x, (list, tuple)):
         return ("seq", tuple(snap(i) for i in x))
     if not isinstance(x, np.ndarray):
@@ -254,6 +254,25 @@ def part_convert(ctx, shard):
                         exp = np.full(fill.shape, 77).astype(data.dtype)
                         if pb.dtype == data.dtype and not np.array_equal(fill, exp):
                             ctx.violation(base + "|mode=parent-changed-outside-the-view", case, 77, fill.reshape(-1)[:4].tolist())
+            # a Unit OBJECT of another registry (or an exported one) as the target is an input too: it must stay what and whose it was
+            if dtype in ("float64", "int64") and form in ("base", "strided") and src_unit == "km":
+                from unyt.unit_registry import UnitRegistry as _UR, default_unit_registry as _D
+
+                for owner in ("other-registry", "exported"):
+                    for rname, f in list(COPY_ROUTES.items())[:3] + list(INPLACE_ROUTES.items())[:1]:
+                        ctx.count("evaluations")
+                        regA, regB = _UR(), _UR()
+                        q = mkq(data, src_unit, form, registry=regA)
+                        tgt = Unit("cm", registry=regB) if owner == "other-registry" else unyt.cm
+                        home = regB if owner == "other-registry" else _D
+                        before = snap(tgt)
+                        st, r = run_call(lambda: f(q, tgt))
+                        ctx.decided(("convert-foreign-unit", rname, owner, dtype, form))
+                        case = dict(case0, route=rname, target="Unit-of-" + owner)
+                        if snap(tgt) != before or tgt.registry is not home:
+                            ctx.violation(f"C18|convert|route={rname}|target=Unit-of-{owner}|outcome={st}|mode=unit-argument-changed", case, "unchanged, same registry", "rebound" if tgt.registry is not home else "changed")
+                        if Unit("cm", registry=home).registry is not home:
+                            ctx.violation(f"C18|convert|route={rname}|target=Unit-of-{owner}|outcome={st}|mode=owner-registry's-cached-unit-rebound", case, None, None)
             for table, inplace in ((NOARG_COPY, False), (NOARG_INPLACE, True)):
                 for rname, f in table.items():
                     ctx.count("evaluations")
@@ -344,9 +363,9 @@ def part_ufunc(ctx, shard):
 
                 iop = {"add": operator.iadd, "subtract": operator.isub, "multiply": operator.imul, "true_divide": operator.itruediv, "floor_divide": operator.ifloordiv, "remainder": operator.imod, "power": operator.ipow}.get(name)
                 calls = ["call", "out", "out-wrong-shape", "out-left", "out-right"] + (["inplace-op"] if iop else [])
-                for call in calls:
+                for call, lunit in [(c, "m") for c in calls] + ([(c, lu) for c in ("call", "inplace-op") for lu in ("km/s/Mpc", "m**2/cm", "J/erg") if c in calls] if kname in ("bare", "dimless", "same") else []):
                     ctx.count("evaluations")
-                    a, b = mkq(da, "m", form), mk_b()
+                    a, b = mkq(da, lunit, form), (mk_b() if not (kname == "same" and lunit != "m") else mkq(db, lunit, form))
                     if call == "out-right" and not isinstance(b, unyt_array):
                         continue
                     outb = {"out": lambda: mkq(np.zeros(shape), "kg", "strided"), "out-wrong-shape": lambda: mkq(np.zeros((5,)), "kg", "strided"), "out-left": lambda: a, "out-right": lambda: b}.get(call, lambda: None)()
@@ -362,8 +381,8 @@ def part_ufunc(ctx, shard):
                         st, r = run_call(lambda: uf(a, b, out=outb) if uf.nout == 1 else uf(a, b, out=(outb, None)))
                     ctx.outcome(("ufunc2", name, kname, call, st))
                     ctx.decided(("ufunc2", name, kname, form, dtype, call))
-                    case = {"part": "ufunc", "name": name, "kind": kname, "form": form, "dtype": dtype, "call": call}
-                    base = f"C18|ufunc|name={name}|call={call}|operand={kname}"
+                    case = {"part": "ufunc", "name": name, "kind": kname, "form": form, "dtype": dtype, "call": call, "left_unit": lunit}
+                    base = f"C18|ufunc|name={name}|call={call}|operand={kname}" + ("" if lunit == "m" else "|left=unsimplified-unit")
                     if outb is not a:
                         d = diff(sa, snap(a))
                         if d:
@@ -377,7 +396,7 @@ def part_ufunc(ctx, shard):
                         if d in ("numbers", "unit", "parent-numbers", "shape"):
                             ctx.violation(base + f"|mode=failed-call-changed-target:{d}", case, type(r).__name__, d)
                     if outb is not None and st == "ok" and call in ("out", "out-left", "inplace-op"):
-                        st2, ref = run_call(lambda: uf(mkq(da, "m", "base"), mkq(db, runit, "base") if runit not in (None, "obj") else db.copy()))
+                        st2, ref = run_call(lambda: uf(mkq(da, lunit, "base"), (mkq(db, runit if lunit == "m" or kname != "same" else lunit, "base")) if runit not in (None, "obj") else db.copy()))
                         if st2 == "ok":
                             ref0 = ref[0] if isinstance(ref, tuple) else ref
                             _cmp_target(ctx, base, case, outb, ref0)
